@@ -1336,7 +1336,18 @@ func c06TakeoverComplete(w *World, r *Report, ra *repoAnchors) {
 			})
 		})
 		n := 0
-		for p, fields := range taken {
+		var pairs []pair
+		for p := range taken {
+			pairs = append(pairs, p)
+		}
+		sort.Slice(pairs, func(i, j int) bool {
+			if pairs[i].dst.Pos() != pairs[j].dst.Pos() {
+				return pairs[i].dst.Pos() < pairs[j].dst.Pos()
+			}
+			return pairs[i].src.Pos() < pairs[j].src.Pos()
+		})
+		for _, p := range pairs {
+			fields := taken[p]
 			if len(fields) < 2 {
 				continue
 			}
